@@ -11,18 +11,83 @@ Definition is_nil {A} (l : list A) : bool := match l with [] => true | _ => fals
 (* which acknowledgement a stored entry waits for *)
 Definition awaits (p : pkt) : N := response_of p.
 
-Definition judge_c06 (g : cfg) (u : unit) (o : obs) : list N * unit :=
+(* ghost of C06, from operations and events only: the outbound exchanges in flight (identifier, QoS of
+   the PUBLISH that opened it) and whether the session is persistent *)
+Record g06 := mkG06 { g6_open : list (N * N); g6_pers : bool }.
+Definition g6_remove (id : N) (l : list (N * N)) : list (N * N) := filter (fun x => negb (fst x =? id)) l.
+
+Definition judge_c06 (g : cfg) (u : g06) (o : obs) : list N * g06 :=
   if ob_pan o then ([], u) else
   let pre := ob_pre o in
   let post := ob_post o in
   let evs := ob_evs o in
+  (* ---- ghost update ---- *)
+  let accepted_connect :=
+    match ob_op o with
+    | OSend p => if (k_type p =? T_CONNECT) && negb (existsb is_error evs) then Some p else None
+    | ORecv _ _ => match recv_pkt o with
+                   | Some p => if (k_type p =? T_CONNECT) && existsb is_notify evs then Some p else None
+                   | None => None end
+    | _ => None
+    end in
+  let accepted_connack :=
+    match ob_op o with
+    | ORecv _ _ => match recv_pkt o with
+                   | Some p => if (k_type p =? T_CONNACK) && (k_rc p =? 0) && existsb is_notify evs then Some p else None
+                   | None => None end
+    | _ => None
+    end in
+  let pers1 :=
+    match accepted_connect with
+    | Some p => if version_eqb (k_ver p) V50 then (match k_sei p with Some v => negb (v =? 0) | None => false end)
+                else negb (k_flag p)
+    | None =>
+      match accepted_connack with
+      | Some p => if version_eqb (k_ver p) V50
+                  then (match k_sei p with Some v => negb (v =? 0) | None => g6_pers u end) else g6_pers u
+      | None => match ob_op o with OSetOffline true => true | _ => g6_pers u end
+      end
+    end in
+  let session_ends :=
+    match accepted_connect with
+    | Some p => k_flag p
+    | None => match accepted_connack with
+              | Some p => negb (k_flag p) || (version_eqb (k_ver p) V50 && match k_sei p with Some 0 => true | _ => false end)
+              | None => false end
+    end in
+  let open0 := if session_ends then [] else g6_open u in
+  let open1 := fold_left (fun l id => g6_remove id l) (released evs) open0 in
+  let open2 := fold_left (fun l q => if (k_type q =? T_PUBACK) || (k_type q =? T_PUBCOMP) then g6_remove (k_pid q) l else l) (notifies evs) open1 in
+  let open3 := match ob_op o with OErase id => g6_remove id open2 | _ => open2 end in
+  let open4 := match ob_op o with
+               | OSend p => if (k_type p =? T_PUBLISH) && negb (k_qos p =? 0) && negb (existsb is_error evs)
+                            then (k_pid p, k_qos p) :: g6_remove (k_pid p) open3 else open3
+               | _ => open3 end in
+  let u' := mkG06 open4 pers1 in
+  (* (0) an acknowledgement of the wrong kind for the exchange the ghost knows under that identifier
+     matches nothing in flight: it must not be accepted *)
+  let v0 :=
+    match recv_pkt o with
+    | Some p =>
+      if existsb is_notify evs && negb (existsb is_error evs) then
+        match assoc_get (k_pid p) (g6_open u) with
+        | Some q => if (k_type p =? T_PUBACK) && (q =? 2) then [26; k_pid p]
+                    else if (k_type p =? T_PUBREC) && (q =? 1) then [26; k_pid p] else []
+        | None => []
+        end
+      else []
+    | None => []
+    end in
   (* (1) an accepted QoS>0 PUBLISH is requested for sending at once or kept in the store *)
   let v1 :=
     match ob_op o with
     | OSend p =>
       if (k_type p =? T_PUBLISH) && negb (k_qos p =? 0) && negb (existsb is_error evs) then
         if existsb (fun q => (k_type q =? T_PUBLISH) && (k_pid q =? k_pid p)) (sends evs)
-           || memb (k_pid p) (store_ids post) then [] else [1; k_pid p]
+           || memb (k_pid p) (store_ids post) then
+          (* while the session is persistent (ghost) it is stored *)
+          (if g6_pers u && negb (memb (k_pid p) (store_ids post)) then [27; k_pid p] else [])
+        else [1; k_pid p]
       else []
     | _ => []
     end in
@@ -32,7 +97,7 @@ Definition judge_c06 (g : cfg) (u : unit) (o : obs) : list N * unit :=
     if is_nil removed then [] else
     match ob_op o with
     | OErase id => if forallb (N.eqb id) removed then [] else [2; id]
-    | OClosed => if negb (c_need_store pre) then [] else [3]
+    | OClosed => if negb (g6_pers u) then [] else [3]
     | OSend p =>
       (* CONNECT with clean start / a refused v5 publish that had just been stored / CONNACK resume dropping oversize entries *)
       if k_type p =? T_CONNECT then (if k_flag p then [] else [4])
@@ -117,19 +182,20 @@ Definition judge_c06 (g : cfg) (u : unit) (o : obs) : list N * unit :=
                         else if existsb (fun k => memb k kpre) tail_new then [24]
                         else []
                  end in
-  (match v1, v2, v3, v4, v5 with
-   | _ :: _, _, _, _, _ => v1
-   | [], _ :: _, _, _, _ => v2
-   | [], [], _ :: _, _, _ => v3
-   | [], [], [], _ :: _, _ => v4
-   | [], [], [], [], _ => v5
-   end, u).
+  (match v0, v1, v2, v3, v4, v5 with
+   | _ :: _, _, _, _, _, _ => v0
+   | [], _ :: _, _, _, _, _ => v1
+   | [], [], _ :: _, _, _, _ => v2
+   | [], [], [], _ :: _, _, _ => v3
+   | [], [], [], [], _ :: _, _ => v4
+   | [], [], [], [], [], _ => v5
+   end, u').
 
 Definition mon_c06 (cs : list N) : list N :=
   let t := dec_trace cs in
   if negb (tr_ok t) then [0; V_BADCASE]
   else if negb (tr_contract t) then []
-  else run_mon judge_c06 (tr_cfg t) tt 0 (tr_obs t).
+  else run_mon judge_c06 (tr_cfg t) (mkG06 [] (match tr_obs t with o :: _ => c_need_store (ob_pre o) | [] => false end)) 0 (tr_obs t).
 
 (* ---------------- C07 ---------------- *)
 Record g07 := mkG07 { g_delivered : list N }.   (* ids notified since their last release point *)
